@@ -640,6 +640,14 @@ def conn_hostile(rng, T):
     t0 += [["sleep", max(1.0, t + 3.0)], ["connected"]]
     if odd:
         dev["restrict_puts"] = {"p": 0.6, "seed": rng.randrange(10 ** 6)}
+    if rng.random() < 0.25:
+        # a receiver that never answers the library's probes (it sleeps through them, or has no MODELNAME at all) but is alive otherwise:
+        # silence is something a device can "send" too — the connection stays up
+        dev["model"] = None
+        if rng.random() < 0.5:
+            k += 1
+            unsol.append([round(t + 130.0, 3), f"@MAIN:ZONENAME=sentinel{k}"])
+            t0[-2] = ["sleep", max(1.0, t + 135.0)]
     return {"kind": "conn", "device": dev, "log_size": rng.choice([0, 0, 5]), "threads": [t0], "pre_register": [1], "sentinels": k, "final_wait": 0}
 
 
